@@ -96,6 +96,14 @@ class C06(Prop):
         ctx.stat("dcd:sequences", len(lines))
         ctx.sample({"op": lines[0][:120], "impl": impl[0][:120], "model": model[0][:120]})
 
+    def random_payload_ok(self, ctx, demod, p, pre, tx_l, sent_l):
+        ln, rep, rc, err = demodlib.run_rx(ctx, demod, p, pre + tx_l)
+        if rc != 0:
+            return False
+        h, frames = demodlib.parse_frames(rep)
+        res = demodlib.judge_delivery(sent_l, frames)
+        return res["steady_frame"] is not None and res["steady_frame"] <= 400
+
     # ------------------------------------------------------------------------------------------
     def run(self, ctx):
         demod, mod = demodlib.drivers()
@@ -134,6 +142,30 @@ class C06(Prop):
         ctx.notes.append(f"band-energy ratio over 384-sample blocks of a clean transmission at nominal level: min {min(body):.1f}, median {sorted(body)[len(body)//2]:.1f} "
                          f"(premise of dcd_recovers_10_at_4_5 is ratio >= 4.5 for ten consecutive blocks: {'met by every block' if min(body) >= 4.5 else 'NOT met by every block'}; "
                          f"premise of dcd_recovers, ratio >= 8 on four consecutive blocks: met at {sum(1 for i in range(len(body) - 3) if min(body[i:i + 4]) >= 8)} of {max(0, len(body) - 3)} positions)")
+
+        # ---- corpus: the witness of the open finding runs first, on every run ----
+        import gzip, os
+        wit = os.path.join(core.VERIF, "corpus", "C06-false-sync-lock.ops.gz")
+        if os.path.exists(wit):
+            wl = [l for l in gzip.open(wit, "rt").read().split("\n") if l]
+            out_w, rc_w, err_w = ctx.run_lines(demod, wl, timeout=600)
+            ctx.count(("corpus", "C06-false-sync-lock"), nontrivial=True)
+            ctx.stat("corpus:witness-runs")
+            h, frames = demodlib.parse_frames(out_w[0] if out_w else "")
+            # steady reception without knowing the payloads: eight consecutive stream frames with consecutive frame numbers and low cost
+            run_ = best = 0
+            prev_fn = None
+            for f in frames:
+                if f[0] != "S":
+                    continue
+                fn = ((f[2][0] << 8) | f[2][1]) & 0x7FFF
+                run_ = run_ + 1 if (prev_fn is not None and fn == (prev_fn + 1) % 0x8000 and f[1] < 70) else 1
+                best = max(best, run_)
+                prev_fn = fn
+            if rc_w != 0 or best < 8:
+                ctx.violate("rx:false-sync-lock:repeating-payload",
+                            f"corpus witness (100 zero samples, then a clean 412-frame square-wave transmission): longest run of consecutive good frames {best}",
+                            {"stream": "rx", "ops_file": wit, "params": "corpus/C06-false-sync-lock.json"})
 
         def scenario(k):
             p = {"gain": rng.choice([300, 1000, 3500, rng.randrange(300, 3501)]), "dc": rng.randrange(-300, 301), "sigma": rng.choice([0, 0, 10, 50]),
@@ -229,6 +261,17 @@ class C06(Prop):
             if ok:
                 ctx.stat("rx:steady-reception-reached")
                 ctx.stat("rx:frames-before-steady", res["steady_frame"])
+            elif const_ and self.random_payload_ok(ctx, demod, p, pre, tx_l, sent_l):
+                # differential diagnosis: the same history and channel with a transmission whose payload does NOT repeat is received.
+                # What fails is the known open finding (known_findings.json): frames of a constant-payload transmission contain, at fixed
+                # offsets, data patterns that resemble sync words; after a late entry the sync search takes the first one it meets,
+                # deterministically, again after every recycle.
+                fails += 1
+                ctx.stat("rx:known-finding-false-sync-lock")
+                ctx.violate("rx:false-sync-lock:repeating-payload",
+                            f"after history `{hist}` a clean 412-frame transmission with a repeating voice payload is not received ({res['delivered']} frames delivered) "
+                            f"while the same history and channel with a non-repeating payload is",
+                            {"stream": "rx", "history": hist, "params": p, "pre_samples": len(pre), "ops_file": demodlib.save_ops([ln])})
             else:
                 fails += 1
                 dcd_ever = h[5] if h else 0
